@@ -639,12 +639,12 @@ theorem mem_of_split {α : Type} {l pre post : List α} {r : α} (h : l = pre ++
 
 /-- an IDENTIFY that completed a TLS handshake -/
 def IsTlsUpgrade (cfg : Config) (q : Rec) : Prop :=
-  ∃ now ans d, q.ev = .cmd now ans (.identify d) ∧ d.featureNegotiation = true ∧ d.tlsv1 = true ∧
+  ∃ rd now ans d, q.ev = .cmd rd now ans (.identify d) ∧ d.featureNegotiation = true ∧ d.tlsv1 = true ∧
     (∃ cn, handshake cfg.certPolicy d.cert = some cn) ∧ q.res.replies = upgradedReplies cfg
 
 /-- a successful AUTH -/
 def IsAuthSuccess (q : Rec) : Prop :=
-  ∃ now ans args size secret, q.ev = .cmd now ans (.auth args size secret) ∧ isAuthOk q.res.replies
+  ∃ rd now ans args size secret, q.ev = .cmd rd now ans (.auth args size secret) ∧ isAuthOk q.res.replies
 
 theorem stepEv_tls (E : Ext) (cfg : Config) (M : Matcher) (s : St) (e : Ev)
     (h : (after (stepEv E cfg M s e)).conn.tls = true) :
@@ -657,14 +657,17 @@ theorem stepEv_tls (E : Ext) (cfg : Config) (M : Matcher) (s : St) (e : Ev)
   right
   cases e with
   | env b' => simp [stepEv, hc'] at h
-  | cmd now ans c =>
+  | cmd rd now ans c =>
     simp only [stepEv] at h ⊢
-    by_cases hcl : s.conn.closed = true
-    · rw [step_closed _ _ _ _ _ _ _ _ hcl] at h; simp [hc'] at h
-    · have hcl' : s.conn.closed = false := by simpa using hcl
-      rw [step_open _ _ _ _ _ _ _ _ hcl'] at h ⊢
-      obtain ⟨d, hd, _, _, a3, _, a5, a6, a7, _⟩ := exec_tls E cfg M ans now s.conn s.broker c h hc'
-      exact ⟨now, ans, d, by rw [hd], a3, a5, a6, a7⟩
+    by_cases hrd : rd = s.conn.rd
+    · simp only [hrd, if_true] at h ⊢
+      by_cases hcl : s.conn.closed = true
+      · rw [step_closed _ _ _ _ _ _ _ _ hcl] at h; simp [hc'] at h
+      · have hcl' : s.conn.closed = false := by simpa using hcl
+        rw [step_open _ _ _ _ _ _ _ _ hcl'] at h ⊢
+        obtain ⟨d, hd, _, _, a3, _, a5, a6, a7, _⟩ := exec_tls E cfg M ans now s.conn s.broker c h hc'
+        exact ⟨s.conn.rd, now, ans, d, by rw [hd], a3, a5, a6, a7⟩
+    · simp [hrd, hc'] at h
 
 theorem stepEv_hasAuth (E : Ext) (cfg : Config) (M : Matcher) (s : St) (e : Ev)
     (h : hasAuthorizations (after (stepEv E cfg M s e)).conn = true) :
@@ -673,15 +676,18 @@ theorem stepEv_hasAuth (E : Ext) (cfg : Config) (M : Matcher) (s : St) (e : Ev)
   rw [after_hasAuth] at h
   cases e with
   | env b' => left; simpa [stepEv] using h
-  | cmd now ans c =>
+  | cmd rd now ans c =>
     simp only [stepEv] at h ⊢
-    by_cases hcl : s.conn.closed = true
-    · rw [step_closed _ _ _ _ _ _ _ _ hcl] at h; exact Or.inl h
-    · have hcl' : s.conn.closed = false := by simpa using hcl
-      rw [step_open _ _ _ _ _ _ _ _ hcl'] at h ⊢
-      rcases exec_hasAuth E cfg M ans now s.conn s.broker c h with h1 | ⟨⟨args, size, secret, hc⟩, h2⟩
-      · exact Or.inl h1
-      · right; exact ⟨now, ans, args, size, secret, by rw [hc], h2⟩
+    by_cases hrd : rd = s.conn.rd
+    · simp only [hrd, if_true] at h ⊢
+      by_cases hcl : s.conn.closed = true
+      · rw [step_closed _ _ _ _ _ _ _ _ hcl] at h; exact Or.inl h
+      · have hcl' : s.conn.closed = false := by simpa using hcl
+        rw [step_open _ _ _ _ _ _ _ _ hcl'] at h ⊢
+        rcases exec_hasAuth E cfg M ans now s.conn s.broker c h with h1 | ⟨⟨args, size, secret, hc⟩, h2⟩
+        · exact Or.inl h1
+        · right; exact ⟨s.conn.rd, now, ans, args, size, secret, by rw [hc], h2⟩
+    · simp only [hrd, if_false] at h; exact Or.inl h
 
 /-- In any history, a connection whose TLS flag is set has completed a handshake inside an
 earlier IDENTIFY (or had the flag from the start). -/
@@ -780,7 +786,7 @@ theorem checkAuth_conn_cached (cfg : Config) (M : Matcher) (ans : Request → Op
 
 /-- a SUB that was accepted -/
 def IsSubSuccess (q : Rec) : Prop :=
-  ∃ now ans args, q.ev = .cmd now ans (.sub args) ∧ q.res.replies = [.ok]
+  ∃ rd now ans args, q.ev = .cmd rd now ans (.sub args) ∧ q.res.replies = [.ok]
 
 /-- the commands whose handler can change the broker: the four gated ones, and FIN / REQ / TOUCH
 (which need a subscription) -/
@@ -931,15 +937,18 @@ theorem stepEv_state (E : Ext) (cfg : Config) (M : Matcher) (s : St) (e : Ev)
   rw [after_state] at h
   cases e with
   | env b' => left; simpa [stepEv] using h
-  | cmd now ans c =>
+  | cmd rd now ans c =>
     simp only [stepEv] at h ⊢
-    by_cases hcl : s.conn.closed = true
-    · rw [step_closed _ _ _ _ _ _ _ _ hcl] at h; exact Or.inl h
-    · have hcl' : s.conn.closed = false := by simpa using hcl
-      rw [step_open _ _ _ _ _ _ _ _ hcl'] at h ⊢
-      rcases exec_state E cfg M ans now s.conn s.broker c h with h1 | ⟨⟨args, hc⟩, h2⟩
-      · exact Or.inl h1
-      · right; exact ⟨now, ans, args, by rw [hc], h2⟩
+    by_cases hrd : rd = s.conn.rd
+    · simp only [hrd, if_true] at h ⊢
+      by_cases hcl : s.conn.closed = true
+      · rw [step_closed _ _ _ _ _ _ _ _ hcl] at h; exact Or.inl h
+      · have hcl' : s.conn.closed = false := by simpa using hcl
+        rw [step_open _ _ _ _ _ _ _ _ hcl'] at h ⊢
+        rcases exec_state E cfg M ans now s.conn s.broker c h with h1 | ⟨⟨args, hc⟩, h2⟩
+        · exact Or.inl h1
+        · right; exact ⟨s.conn.rd, now, ans, args, by rw [hc], h2⟩
+    · simp only [hrd, if_false] at h; exact Or.inl h
 
 /-- In any history, a connection that is no longer in its initial state had an earlier SUB
 accepted (or started that way). -/
@@ -970,6 +979,129 @@ theorem sub_success_hasAuth (E : Ext) (cfg : Config) (M : Matcher) (ans : Reques
     · exact hha
     · have : hasAuthorizations c = false := by simpa using hha
       simp [this] at hd
+
+/-! ## byte provenance: the reader generation -/
+
+theorem checkAuth_conn_rd (cfg : Config) (M : Matcher) (ans : Request → Option Resp) (now : Int)
+    (c : Conn) (t ch : String) : (checkAuth cfg M ans now c t ch).conn.rd = c.rd := by
+  rcases checkAuth_conn cfg M ans now c t ch with h | ⟨a, a', _, _, _, _, _, h⟩ <;> simp [h]
+
+/-- No handler behind the dispatch switch replaces the reader. -/
+theorem dispatch_rd (E : Ext) (cfg : Config) (M : Matcher) (ans : Request → Option Resp)
+    (now : Int) (c : Conn) (b : Broker) (cmd : Cmd) :
+    (dispatch E cfg M ans now c b cmd).conn.rd = c.rd := by
+  cases cmd with
+  | identify d => simp [dispatch, fatalRes]
+  | auth args size secret =>
+    simp only [dispatch]; unfold execAuth
+    repeat' split
+    all_goals simp [fatalRes]
+  | pub args size =>
+    simp only [dispatch]; unfold execPub
+    repeat' split
+    all_goals simp [fatalRes, deniedRes, checkAuth_conn_rd]
+  | mpub args size count sizes =>
+    simp only [dispatch]; unfold execMpub
+    repeat' split
+    all_goals simp [fatalRes, deniedRes, checkAuth_conn_rd]
+  | dpub args size =>
+    simp only [dispatch]; unfold execDpub
+    repeat' split
+    all_goals simp [fatalRes, deniedRes, checkAuth_conn_rd]
+  | sub args =>
+    simp only [dispatch]; unfold execSub
+    repeat' split
+    all_goals simp [fatalRes, deniedRes, checkAuth_conn_rd]
+  | rdy args =>
+    simp only [dispatch]; unfold execRdy
+    repeat' split
+    all_goals simp [fatalRes, okRes]
+  | fin args =>
+    simp only [dispatch]; unfold execChanCmd
+    repeat' split
+    all_goals simp [fatalRes, okRes]
+  | req args =>
+    simp only [dispatch]; unfold execChanCmd
+    repeat' split
+    all_goals simp [fatalRes, okRes]
+  | touch args =>
+    simp only [dispatch]; unfold execChanCmd
+    repeat' split
+    all_goals simp [fatalRes, okRes]
+  | cls =>
+    simp only [dispatch]; unfold execCls
+    repeat' split
+    all_goals simp [fatalRes, okRes]
+  | nop => simp [dispatch, okRes]
+  | unknown n => simp [dispatch, fatalRes]
+
+/-- IDENTIFY: either flag and reader are untouched, or the handshake completed: flag up and a
+fresh reader (over the decrypted stream) installed — never one without the other. -/
+theorem execIdentify_rd (cfg : Config) (c : Conn) (b : Broker) (d : IdentifyData) :
+    ((execIdentify cfg c b d).conn.tls = c.tls ∧ (execIdentify cfg c b d).conn.rd = c.rd) ∨
+    ((execIdentify cfg c b d).conn.tls = true ∧ (execIdentify cfg c b d).conn.rd = c.rd + 1) := by
+  unfold execIdentify
+  repeat' split
+  all_goals simp [fatalRes, okRes]
+
+theorem exec_rd (E : Ext) (cfg : Config) (M : Matcher) (ans : Request → Option Resp)
+    (now : Int) (c : Conn) (b : Broker) (cmd : Cmd) :
+    ((exec E cfg M ans now c b cmd).conn.tls = c.tls ∧ (exec E cfg M ans now c b cmd).conn.rd = c.rd) ∨
+    ((exec E cfg M ans now c b cmd).conn.tls = true ∧ (exec E cfg M ans now c b cmd).conn.rd = c.rd + 1) := by
+  cases cmd with
+  | identify d => simp only [exec]; exact execIdentify_rd cfg c b d
+  | _ =>
+    left
+    simp only [exec]
+    split
+    · simp [fatalRes]
+    · exact ⟨dispatch_tls .., dispatch_rd ..⟩
+
+theorem after_rd (r : Res) : (after r).conn.rd = r.conn.rd := by
+  unfold after; split <;> rfl
+
+/-- "TLS flag up although still on the plaintext reader" is not a state any step can enter. -/
+theorem stepEv_flag_reader (E : Ext) (cfg : Config) (M : Matcher) (s : St) (e : Ev)
+    (h : (after (stepEv E cfg M s e)).conn.tls = true ∧ (after (stepEv E cfg M s e)).conn.rd = 0) :
+    (s.conn.tls = true ∧ s.conn.rd = 0) ∨ False := by
+  rw [after_tls, after_rd] at h
+  left
+  cases e with
+  | env b' => simpa [stepEv] using h
+  | cmd rd now ans c =>
+    simp only [stepEv] at h
+    by_cases hrd : rd = s.conn.rd
+    · simp only [hrd, if_true] at h
+      by_cases hcl : s.conn.closed = true
+      · rw [step_closed _ _ _ _ _ _ _ _ hcl] at h; exact h
+      · have hcl' : s.conn.closed = false := by simpa using hcl
+        rw [step_open _ _ _ _ _ _ _ _ hcl'] at h
+        rcases exec_rd E cfg M ans now s.conn s.broker c with ⟨h1, h2⟩ | ⟨_, h2⟩
+        · rw [h1, h2] at h; exact h
+        · rw [h2] at h; exact absurd h.2 (by omega)
+    · simp only [hrd, if_false] at h; exact h
+
+/-- In every history of a connection that starts on its plaintext reader without TLS, the TLS flag
+is up only on a later reader generation: `tls = true → rd ≠ 0`. -/
+theorem trace_flag_reader (E : Ext) (cfg : Config) (M : Matcher) (evs : List Ev) (s : St)
+    (pre : List Rec) (r : Rec) (post : List Rec)
+    (h : trace E cfg M s evs = pre ++ r :: post) (h0 : ¬ (s.conn.tls = true ∧ s.conn.rd = 0))
+    (ht : r.pre.conn.tls = true) : r.pre.conn.rd ≠ 0 := by
+  intro hz
+  rcases trace_inv E cfg M (fun s => s.conn.tls = true ∧ s.conn.rd = 0) (fun _ => False)
+      (stepEv_flag_reader E cfg M) evs s pre r post h ⟨ht, hz⟩ with h1 | ⟨_, _, hf⟩
+  · exact h0 h1
+  · exact hf
+
+/-- a command event that changes the broker was read from the current reader -/
+theorem stepEv_cmd_effect (E : Ext) (cfg : Config) (M : Matcher) (s : St) (rd : Nat) (now : Int)
+    (ans : Request → Option Resp) (c : Cmd)
+    (h : (stepEv E cfg M s (.cmd rd now ans c)).broker ≠ s.broker) :
+    rd = s.conn.rd ∧ stepEv E cfg M s (.cmd rd now ans c) = step E cfg M ans now s.conn s.broker c := by
+  simp only [stepEv] at h ⊢
+  by_cases hrd : rd = s.conn.rd
+  · simp [hrd]
+  · simp [hrd] at h
 
 /-! ## small concrete objects for the non-vacuity examples of `Nsq.Props.C11` -/
 
